@@ -11,6 +11,23 @@ def check_C20(ctx, rep):
     check_format_ast(rep, f)
     check_format_mir(rep, f)
     check_serde(rep, f)
+    # the deserialiser's only way to a value is TwoFloat::try_from, whose gate must be Definition 1.4
+    from . import rules_base
+    tr, b = rules_base.get_tree(rep, f, "R54g", "fn:no_overlap")
+    if tr is not None:
+        rules_base.expect_equiv(rep, "R54g", "deserialisation gate is Definition 1.4", "gate-predicate", D.expand_bool_leaves(tr), rules_base.no_overlap_ref(), b,
+                                "no_overlap (behind TryFrom<(f64,f64)>) equals the reference form: overlapping or non-finite words are rejected")
+    tr, b = rules_base.get_tree(rep, f, "R54g", "<TwoFloat as core::convert::TryFrom<(f64, f64)>>::try_from")
+    if tr is not None:
+        a = P(0)
+        x, y = mk("field", a, 0), mk("field", a, 1)
+        OK = mk("agg", ("adt", "core::result::Result", 0, "Ok"), (mk("agg", ("adt", "TwoFloat", 0, "TwoFloat"), (x, y)),))
+        def leq(l1, l2):
+            if l2 == ("ERR",):
+                return l1[0] == "leaf" and tag(l1[1]) == "agg" and l1[1][1][3] == "Err"
+            return l1 == l2
+        rules_base.expect_equiv(rep, "R54g", "TryFrom<(f64,f64)> stores the checked words untouched", "gate-tryfrom", tr,
+                                ("if", mk("call", "fn:no_overlap", x, y), ("leaf", OK, ()), ("ERR",)), b, "no_overlap(v.0, v.1) ? Ok{v.0, v.1} : Err", leaf_eq=leq)
     if ctx.tier == "thorough":
         fb = ctx.facts("B")
         check_serde(rep, fb, sfx=" [cfg B]")
